@@ -123,7 +123,14 @@ func TestC07_Spellings(t *testing.T) {
 		p, pname := genProfile(t)
 		root := uni.GenDatum(t, p)
 		g := gen.NewExprGen(t, root, "")
-		e := g.Expr(rapid.IntRange(1, 3).Draw(t, "depth"))
+		var e bx.Expr
+		if rapid.IntRange(0, 3).Draw(t, "quantified") == 0 {
+			// nested quantifiers whose collections are reached through outer aliases
+			g.MaxQuant = 3
+			e = g.Quant(rapid.IntRange(2, 3).Draw(t, "qdepth"))
+		} else {
+			e = g.Expr(rapid.IntRange(1, 3).Draw(t, "depth"))
+		}
 		c := newEvalCase("", e, root, Opts{})
 		if p.JSON {
 			c.Datum = uni.NormalizeJSON(root)
